@@ -61,6 +61,8 @@ type ctrlCase struct {
 	// IPModeDefault: the API server fills in status.loadBalancer.ingress[].ipMode = "VIP" for entries with an IP that
 	// were written without one (what kube-apiserver does since the LoadBalancerIPMode feature is on by default, 1.30)
 	IPModeDefault bool `json:"ipmode_default,omitempty"`
+	// LBClass: the controller runs with --lb-class and every service carries that class
+	LBClass bool `json:"lb_class,omitempty"`
 }
 
 type ctrlGenOpts struct {
@@ -146,7 +148,7 @@ func genPerm(rt *rapid.T, n int, label string) []int {
 }
 
 func genCtrlCase(rt *rapid.T, o ctrlGenOpts) ctrlCase {
-	c := ctrlCase{Cluster: vw.GenCluster(rt, ctrlClusterOpts), IPModeDefault: rapid.IntRange(0, 2).Draw(rt, "ipModeDefault") == 0}
+	c := ctrlCase{Cluster: vw.GenCluster(rt, ctrlClusterOpts), IPModeDefault: rapid.IntRange(0, 2).Draw(rt, "ipModeDefault") == 0, LBClass: rapid.IntRange(0, 3).Draw(rt, "lbClass") == 0}
 	cur := c.Cluster
 	var live []vw.SvcSpec
 	next := 0
@@ -542,7 +544,7 @@ func (s *sim) boot() {
 		},
 	}
 	s.reload = make(chan event.GenericEvent, 4096)
-	s.svcRec = &controllers.ServiceReconciler{Client: s.w, Logger: log.NewNopLogger(), Handler: s.lis.ServiceHandler, Endpoints: false, Reload: s.reload}
+	s.svcRec = &controllers.ServiceReconciler{Client: s.w, Logger: log.NewNopLogger(), Handler: s.lis.ServiceHandler, Endpoints: false, Reload: s.reload, LoadBalancerClass: s.w.LBClass}
 	s.poolRec = &controllers.PoolReconciler{Client: s.w, Logger: log.NewNopLogger(), Namespace: vw.MetalNS, Handler: s.lis.PoolHandler, ValidateConfig: config.DontValidate,
 		ForceReload: func() { s.reload <- controllers.NewReloadEvent() }}
 	s.pending = nil
@@ -810,7 +812,9 @@ func (s *sim) create(sp vw.SvcSpec) {
 	s.touched[k] = true
 	s.specs[k] = sp
 	s.order = append(s.order, k)
-	s.w.Services = append(s.w.Services, sp.Object(s.idx[k]))
+	obj := sp.Object(s.idx[k])
+	s.w.Stamp(obj)
+	s.w.Services = append(s.w.Services, obj)
 	s.enqueue(k)
 }
 
@@ -827,6 +831,7 @@ func (s *sim) update(i int, sp vw.SvcSpec) {
 		s.sinceRestart[k] = true
 	}
 	sp.Apply(s.w.ServiceByKey(k), s.idx[k])
+	s.w.Stamp(s.w.ServiceByKey(k))
 	s.enqueue(k)
 }
 
@@ -1454,6 +1459,12 @@ func (s *sim) restartJudge() {
 
 func runCtrl(c ctrlCase, tr *vw.Trace, j judgeSet) *vw.Violation {
 	s := newSim(c.Cluster, tr, j)
+	if c.LBClass {
+		s.w.LBClass = "verif.example/metallb"
+		s.boot() // the reconcilers are created with the class
+		s.enqueue("pool")
+		tr.Class("running-with-lb-class")
+	}
 	s.ipModeDefault = c.IPModeDefault
 	if c.IPModeDefault {
 		tr.Class("api-server-defaults-ipmode")
